@@ -9,6 +9,10 @@ forwards receipts, issues acks, and can duplicate a delivery, corrupt one cipher
 queued stanzas.  Every server->client delivery is an entry of `World.pending`; the *schedule* is the
 explicit list of indices picked from it, so a run replays exactly from (script, schedule).
 
+A restart / reinstall of an account plays the end of its process: the stack is dropped AND the library's sqlite
+connection is closed without a commit (writes left in an open transaction are lost, as at a real exit); the new
+stack opens the store afresh.
+
 Used by harness/props/C17.py and harness/props/C03.py.  Only public yowsup APIs are used, except:
 `AxolotlManager.COUNT_GEN_PREKEYS` (class constant, made small), the profile's `axolotl_manager`
 property (read-only, for observing the store), and `YowLayer.toLower/toUpper`.
@@ -63,10 +67,28 @@ def shim_axolotl_padding():
     return orig
 
 
+_STORE_CONNS = {}     # real path of a store file -> connections the library opened on it (see close_store_connections)
+
+
+def close_store_connections(path):
+    """What the end of the process does to the library's sqlite connections on `path`: they are closed WITHOUT a
+    commit, so a transaction still open is rolled back and its writes are lost, exactly as when the interpreter
+    exits (sqlite3 never commits on close).  Needed because a dropped stack is not garbage: yowsup's ping thread
+    keeps every layer - and through the profile the AxolotlManager and its connection - alive for the rest of the
+    run, with its open transaction and its write lock."""
+    for c in _STORE_CONNS.pop(os.path.realpath(path), []):
+        try:
+            c.close()
+        except Exception:
+            pass
+
+
 def relax_sqlite_fsync():
     """The simulator opens the axolotl stores with PRAGMA synchronous=OFF: commits keep their transactional
     meaning for every connection (restart = new connection over the same file sees exactly the committed rows),
-    only the fsync to the medium is elided (crash durability is C13's subject, not the simulator's)."""
+    only the fsync to the medium is elided (crash durability is C13's subject, not the simulator's).
+    The wrapper also registers every connection the library opens, per store file, so that the end of a process
+    can be played faithfully (close_store_connections)."""
     import sqlite3
     import yowsup.axolotl.store.sqlite.liteaxolotlstore as las
     if getattr(las.sqlite3, "_yv_relaxed", False):
@@ -81,6 +103,8 @@ def relax_sqlite_fsync():
         def connect(self, *a, **kw):
             c = sqlite3.connect(*a, **kw)
             c.execute("PRAGMA synchronous=OFF")
+            if a and isinstance(a[0], str) and not kw.get("uri"):
+                _STORE_CONNS.setdefault(os.path.realpath(a[0]), []).append(c)
             return c
     las.sqlite3 = _Sqlite()
 
@@ -224,9 +248,14 @@ class Account(object):
             i += 1
 
     def stop(self):
+        """The process of this account ends: the stack is dropped and - unless the world was built with
+        exit_closes_store=False - the library's store connection is closed without a commit (uncommitted writes
+        are lost, as at a real exit)."""
         self.stack = None
         self.bottom = self.top = None
         self.profile = None
+        if self.world.exit_closes_store:
+            close_store_connections(os.path.join(self.profile_dir(), "axolotl.db"))
 
     def restart(self):
         self.stop()
@@ -300,8 +329,10 @@ class Account(object):
 
 
 class World(object):
-    def __init__(self, scratch, phones, autotrust=None, prekeys=12, top_acks=True, pad_rng=None, shim=True, record=True):
+    def __init__(self, scratch, phones, autotrust=None, prekeys=12, top_acks=True, pad_rng=None, shim=True, record=True,
+                 exit_closes_store=True):
         self.m = _imports()
+        self.exit_closes_store = exit_closes_store
         import logging
         import yowsup.axolotl.manager as mgr
         logging.getLogger(mgr.__name__).setLevel(logging.ERROR)
@@ -320,6 +351,7 @@ class World(object):
         self.directory = {}       # jid -> {"identity","registration","type","skey":(id,val,sig),"keys":[(id,val)]}
         self.pending = []         # list[Delivery]
         self.serial = 0
+        self.nserial = 0          # notifications issued
         self.log = []             # server-side log of routed things
         self.faults = []
         self.strict = True
@@ -471,6 +503,16 @@ class World(object):
         kids = [clone_node(c) for c in node.getAllChildren()]
         self._enqueue(dst, N("receipt", attrs, kids or None), "receipt",
                       {"sender": acct.idx, "id": node["id"], "type": node["type"]})
+
+    def notify_identity(self, dst_idx, about_idx):
+        """The server tells account dst that account `about` has a new identity: an `encrypt` notification with an
+        <identity/> child, from the contact's jid.  Queued like every other delivery."""
+        N = self.m["ProtocolTreeNode"]
+        self.nserial += 1
+        dst, about = self.accounts[dst_idx], self.accounts[about_idx]
+        node = N("notification", {"from": about.jid, "type": "encrypt", "id": "n%d" % self.nserial, "t": str(T0)},
+                 [N("identity")])
+        self._enqueue(dst, node, "notification", {"about": about_idx, "id": node["id"]})
 
     # ---- server: schedule and faults ------------------------------------------------------------
     def deliver(self, k):
@@ -838,6 +880,8 @@ class Recorder(object):
                 g = node.getChild("group")
                 ev.update(tag="ginfo-result", iq=seq, error=node["type"] != "result",
                           parts=[self.peer(p["jid"]) for p in g.getAllChildren("participant")] if g else [])
+        elif tag == "notification" and node["type"] == "encrypt" and node.getChild("identity") is not None:
+            ev.update(tag="notify-identity", peer=self.peer(node["from"]), id=self.mid(node["id"]))
         self._cur = self._push(acct, ev)
 
     def after_in(self, acct, node):
@@ -865,6 +909,8 @@ class Recorder(object):
             else:
                 ev.update(tag="ginfo", iq=seq, group=self.peer(node["to"]))
             self.iqreq[acct.idx][seq] = ev
+        elif tag == "ack" and node["class"] == "notification":     # tag stays "other": extra fields only
+            ev.update(cls="notification", peer=self.peer(node["to"]), id=self.mid(node["id"]), ntype=node["type"])
         ev["node"] = node
         self._push(acct, ev)
 
